@@ -460,9 +460,53 @@ def r5_str_slicing(ctx):
     ctx.floor('C09.R5', 'byte-range slicings of strings in the compiler crates', n, 4)
 
 
+def r6_inclusive_spans(ctx):
+    ctx.rule('C09.R6', 'P7 arithmetic on inclusive spans: PathParameterDetails{start,end} and the domain ParsedParameter{start_at,end_at} record the '
+             'positions of the opening and of the closing brace, both included. Wherever the compiler computes `end - start` of such a span the '
+             'difference is incremented by one before it is used as a length (an off-by-one leaves a stray brace in the derived route pattern, '
+             'which matchit rejects with an error the caller treats as unreachable).')
+    n = 0
+    for b in ctx.fb.bodies('pavexc'):
+        if b.is_promoted:
+            continue
+        defs = Defs(b)
+
+        def field_of(o):
+            pl = op_place(o)
+            if pl is None:
+                return None
+            if pl.get('p'):
+                return pl['p'][-1]
+            for _, _, nd in defs.full.get(pl['l'], []):
+                rv = nd.get('rv')
+                if rv and rv['k'] in ('use', 'cfd') and op_place(rv.get('op', {})) is not None and op_place(rv['op']).get('p'):
+                    return op_place(rv['op'])['p'][-1]
+            return None
+        for bb, j, st in b.all_assigns():
+            rv = st['rv']
+            if rv['k'] != 'bin' or not rv['bop'].startswith('Sub'):
+                continue
+            fa, fb_ = field_of(rv['a']), field_of(rv['b'])
+            if (fa, fb_) not in (('f:end', 'f:start'), ('f:end_at', 'f:start_at')):
+                continue
+            n += 1
+            d = forward_derived(b, {st['lhs']['l']}, defs, through_calls=False)
+            plus_one = False
+            for b2, j2, s2 in b.all_assigns():
+                r2 = s2['rv']
+                if r2['k'] == 'bin' and r2['bop'].startswith('Add'):
+                    ops = [r2['a'], r2['b']]
+                    if any(isinstance(o, dict) and o.get('int') == '1' for o in ops) and any(op_place(o) is not None and op_place(o)['l'] in d for o in ops):
+                        plus_one = True
+            ctx.ob('C09.R6', 'span-length|%s' % b.nid.replace(PX, '').replace('pavexc::', ''), plus_one, b.loc(bb, st),
+                   '`%s - %s` of an inclusive span is %sincremented by one before use' % (fa[2:], fb_[2:], '' if plus_one else 'NOT '))
+    ctx.floor('C09.R6', 'length computations over inclusive spans', n, 2)
+
+
 def check(ctx):
     r4_nothing_assumes_success_before_the_gate(ctx)
     r1_no_silent_failure(ctx)
     r2_writes_after_success(ctx)
     r3_progress_flag(ctx)
     r5_str_slicing(ctx)
+    r6_inclusive_spans(ctx)
